@@ -698,6 +698,8 @@ pub fn attribute(v: &FrameViolation) -> Vec<&'static str> {
             // written what it accepted unless the drop's own write failed - whatever failed earlier
             ("F2", "flush-left-data") | ("F2", "lost-at-drop") => vec!["C07", "C06"],
             ("F1", _) | ("F2", _) | ("F3", _) => vec!["C07"],
+            // "writes only when it must" holds whatever failed earlier: a refused write is no reason to write early later on
+            ("F4", _) => vec!["C19"],
             _ => vec![],
         }
     } else {
